@@ -288,6 +288,8 @@ class Interp:
         self.toplevel_names = []
         self.depth = 0
         self.place_counter = 0
+        self.lib = {}
+        self.preconditions = []
 
     # -------------------------------------------------------------- scopes
     def lookup(self, name):
@@ -466,6 +468,11 @@ class Interp:
 
     # -------------------------------------------------------------- calls
     def call(self, fname, args):
+        if fname not in self.funcs and fname in self.lib:
+            from .libdoc import call_documented
+
+            vals = [self.ev(a) for a in args]
+            return call_documented(self, fname, vals)
         if fname not in self.funcs:
             raise RefError(f"unknown function {fname}")
         _, _, params, body, ret = self.funcs[fname]
@@ -572,7 +579,13 @@ class Interp:
         elif k == "expr":
             self.ev(s[1])
         elif k == "import":
-            raise RefError("imports are expanded by the generator")
+            from .libdoc import LIBS
+
+            base = s[1].split("/")[-1]
+            if base in LIBS:
+                self.lib.update(LIBS[base])
+            else:
+                raise RefError("imports of generated files are pasted by the generator (twin)")
         elif k == "raw":
             raise RefError("raw statement")
         else:
